@@ -234,6 +234,7 @@ type evidence struct {
 // Finish writes the evidence file and returns the exit code.
 func (c *Ctx) Finish(rule string) int {
 	defer os.RemoveAll(c.scratch)
+	markFinished() // (the check reached its end: whatever its children wrote to stderr, this process did not die)
 	if c.infra != nil {
 		fmt.Fprintf(os.Stderr, "INFRASTRUCTURE property=%s: %v\n", c.Prop, c.infra)
 		if len(c.violations) > 0 {
